@@ -18,6 +18,7 @@ use std::time::Instant;
 
 pub mod child;
 pub mod linear;
+pub mod probe;
 
 #[derive(Clone, Copy, Debug, PartialEq, Eq)]
 pub enum Tier {
